@@ -37,7 +37,7 @@ ASSUMPTIONS = [
   "NATIVECCD-disabled scenes: MuJoCo then uses libccd for convex pairs, so only primitive-function pairs (incl. box-box) are judged numerically",
   "collision_primitive's process-global dispatch list (finding F6, property C36) is pinned per case so verdicts do not depend on worker history",
 ]
-BUDGET = {"quick": 150, "thorough": 1500}
+BUDGET = {"quick": 450, "thorough": 2400}
 
 FLAGSETS = _col.FLAGSETS
 
@@ -194,6 +194,9 @@ def compare_world(rec, case, mjm, qpos, got, w, rng):
       tol = EXIST_TOL[num]
       if ia:
         dmin = float(ref["dist"][ia].min())
+        if num == "ccd" and dmin < -0.5 * min(_minsize(mjm, g1), _minsize(mjm, g2)):
+          rec.count("unjudged:deep_penetration")
+          continue
         if dmin > thr - tol:
           rec.count("pair_borderline")
           continue
@@ -328,7 +331,8 @@ def compare_world(rec, case, mjm, qpos, got, w, rng):
       _judge(rec, f"dist_all[{cls}]", pname, got["dist"][bj], ref["dist"][ai], allow[0], ndist * C_NOISE_SCALE, ctx)
       if not (abs(float(ref["dist"][ai])) < 2e-6 and num == "ccd"):
         v = _judge(rec, f"normal_all[{cls}]", pname, got["frame"][bj][:3], ref["frame"][ai][:3], allow[2], nfr * C_NOISE_SCALE, ctx)
-        if v == "ok":
+        # mju_makeFrame switches the tangent construction at |n_y| = 0.5: not comparable when the normal sits on the switch
+        if v == "ok" and abs(abs(float(ref["frame"][ai][1])) - 0.5) > 3 * allow[2]:
           cmp.judge(rec, f"tangents:{pname}", got["frame"][bj][3:], ref["frame"][ai][3:], allow[2], nfr * C_NOISE_SCALE, ctx=ctx)
     rec.cover("strict_matched:" + pname, len(ia))
   return ncontact_ref
